@@ -45,7 +45,8 @@ def check_bootstrap(case):
     facts = dict(n=n, alpha=alpha, n_estimators=ne, weights=case["weights"], n_jobs=case["n_jobs"])
     # the base estimator may itself be seeded (DecisionTreeRegressor(random_state=0) is the usual thing to pass): the resamples are the
     # meta-estimator's business and stay independent draws
-    base = RecordingRegressor(yield_fit=case.get("yield_fit", 0), random_state=case.get("base_random_state"), keep_reference=bool(case.get("keep_reference")))
+    base = RecordingRegressor(yield_fit=case.get("yield_fit", 0), random_state=case.get("base_random_state"), keep_reference=bool(case.get("keep_reference")), reseed_global=bool(case.get("reseed_global")))
+    facts["reseed_global"] = bool(case.get("reseed_global"))
     facts["keep_reference"] = bool(case.get("keep_reference"))
     facts["base_random_state"] = case.get("base_random_state")
     model = _mod.IntervalRegressor(estimator=base, verbose=bool(case.get("verbose")), **np_scalars(dict(n_estimators=ne, alpha=alpha, n_jobs=case["n_jobs"]), case.get("np_params", False)))
@@ -96,6 +97,14 @@ def check_bootstrap(case):
         first = ests[0].seen_X_[:, 0].tolist()
         require(any(e.seen_X_[:, 0].tolist() != first for e in ests[1:]), "resample:all-models-same-rows",
                 "the %d models were all trained on the same resample %r" % (ne, [int(v) for v in first][:12]), facts)
+    # ... and no two of them coincide (pairs * n^-m < 1e-12)
+    if ne >= 2 and n >= 2 and len(ests[0].seen_X_) * math.log10(n) >= 12 + math.log10(ne * (ne - 1) / 2.0):
+        seen_resamples = {}
+        for i, e in enumerate(ests):
+            key = tuple(e.seen_X_[:, 0].tolist())
+            require(key not in seen_resamples, "resample:two-models-same-rows",
+                    "models %d and %d were trained on the very same resample %r (chance of that: n^-m)" % (seen_resamples.get(key, -1), i, [int(v) for v in key][:12]), facts)
+            seen_resamples[key] = i
     elig = False
     if n >= 1 and draws > 0:
         miss = n * ((n - 1) / n) ** draws if n > 1 else 0.0
@@ -114,7 +123,7 @@ def check_bootstrap(case):
                     np.nonzero(blocks == 0)[0].tolist(), n, draws, max(drawn)), facts)
     labels = ["n=1" if n == 1 else ("n<=4" if n <= 4 else ("n>4" if n < 64 else "n>=64")), "eligibility-applied" if elig else "eligibility-skipped",
               "weights" if w is not None else "no-weights", "n_jobs=%s" % case["n_jobs"], "alpha<1" if alpha < 1 else "alpha>=1", "container:" + cont,
-              "zero-weights" if (w is not None and (w == 0).any()) else "no-zero-weight"]
+              "zero-weights" if (w is not None and (w == 0).any()) else "no-zero-weight", "base-reseeds-global-rng" if case.get("reseed_global") else "base-leaves-rng-alone"]
     return Outcome(labels, (n >= 2 and elig) or w is not None)
 
 
@@ -167,14 +176,14 @@ def check_aggregate(case):
 
 @st.composite
 def _boot_cases(draw, tier="quick"):
-    n = draw(st.one_of(st.integers(1, 4), st.integers(1, 12)))
+    n = draw(st.one_of(st.integers(1, 4), st.integers(1, 12), st.integers(1, 12), st.integers(20, 40)))
     alpha = draw(st.sampled_from([0.3, 0.5, 0.75, 1.0, 1.0, 1.0, 1.25, 1.5, 2.0]))
     ne = draw(st.one_of(st.integers(1, 60), st.integers(40, 60)))
     return dict(n=n, d=draw(st.integers(1, 3)), alpha=alpha, n_estimators=ne, weights=draw(st.booleans()),
                 n_jobs=draw(st.sampled_from([None, None, 1, 2])), seed=draw(st.integers(0, 2**31 - 1)),
                 yield_fit=draw(st.sampled_from([0, 0, 1])), base_random_state=draw(st.sampled_from([None, None, 0, 7, 12345])), zero_w=draw(st.lists(st.integers(0, 11), max_size=3)) if draw(st.integers(0, 2)) == 0 else [],
                 container=draw(st.sampled_from(["array", "array", "frame", "frame-permuted-index", "series-permuted-index"])),
-                keep_reference=draw(st.booleans()), verbose=draw(st.integers(0, 3)) == 0)
+                keep_reference=draw(st.booleans()), verbose=draw(st.integers(0, 3)) == 0, reseed_global=draw(st.integers(0, 3)) == 0)
 
 
 @st.composite
